@@ -156,9 +156,13 @@ pub fn run_feed_history(rng: &mut Rng, h: &mut History, r: &mut Report, steps: u
                     _ => rng.range(last_ts, now.max(last_ts)),
                 };
                 let base = h.w.feed_hist.last().map(|x| x.0).unwrap_or(1_000_000);
-                let price = match rng.below(4) {
-                    0 => base,
-                    1 => rng.u128_range(1, 1_000_000_000),
+                // the feed accepts any price, zero included ("no answer" rounds of an upstream aggregator): a zero
+                // round is an observation like any other for the latest / previous / TWAP queries
+                let price = match rng.below(12) {
+                    0..=2 => base,
+                    3..=5 => rng.u128_range(1, 1_000_000_000),
+                    6 => 0,
+                    _ if base == 0 => rng.u128_range(1, 1_000_000_000),
                     _ => (base * rng.u128_range(80, 125) / 100).max(1),
                 };
                 h.step(Op::Feed { sender: "owner".into(), msg: pf::ExecuteMsg::AppendPrice { key: KEY.into(), price: Uint128::new(price), timestamp: ts } }, r);
@@ -171,7 +175,7 @@ pub fn run_feed_history(rng: &mut Rng, h: &mut History, r: &mut Report, steps: u
                 let mut t = last_ts;
                 for _ in 0..k {
                     t = rng.range(t, now.max(t));
-                    prices.push(Uint128::new(rng.u128_range(1, 50_000_000)));
+                    prices.push(Uint128::new(if rng.chance(1, 10) { 0 } else { rng.u128_range(1, 50_000_000) }));
                     tss.push(t);
                 }
                 h.step(Op::Feed { sender: "owner".into(), msg: pf::ExecuteMsg::AppendMultiplePrice { key: KEY.into(), prices, timestamps: tss } }, r);
